@@ -1,1 +1,246 @@
-"""(rules to be added)"""
+"""Engine TOTAL - totality of case analyses, rejection points, termination idioms (DESIGN 5.7)."""
+from __future__ import annotations
+
+import ast
+from typing import Dict, List, Optional, Set
+
+from .. import astutil as A
+from ..domains import LEN_CLASSES, eval_len_test
+from ..model import AnalysisError
+from ..report import Ob, bad, ok, unresolved
+from . import rule
+from .common import is_raise_of, method_calls
+
+
+@rule("TOTAL-1", 16, "the case analysis of join_tails_and_exits covers every combination of one-or-more tails and exits")
+def total1(ctx) -> List[Ob]:
+    out: List[Ob] = []
+    fn = ctx.prog.cls("SCFG").find_method("join_tails_and_exits")
+    if fn is None:
+        raise AnalysisError("SCFG.join_tails_and_exits not found")
+    params = [p.arg for p in fn.params if p.arg != "self"]
+    if len(params) != 2:
+        raise AnalysisError("join_tails_and_exits: expected two parameters")
+    body = A.body_without_docstring(fn.node)
+    for lt in LEN_CLASSES[1:]:
+        for le in LEN_CLASSES[1:]:
+            lens = {params[0]: lt, params[1]: le}
+            name = lambda v: f"{v}+" if v == 4 else str(v)  # noqa: E731
+            key = f"len({params[0]})={name(lt)}, len({params[1]})={name(le)}"
+            verdict = None
+            for st in body:
+                if isinstance(st, ast.If):
+                    v = eval_len_test(st.test, lens)
+                    if v is None:
+                        verdict = ("unresolved", f"guard '{A.unparse(st.test)}' cannot be evaluated on length classes", st)
+                        break
+                    if v:
+                        ends = st.body[-1] if st.body else None
+                        if isinstance(ends, ast.Return):
+                            verdict = ("ok", f"handled by 'if {A.unparse(st.test)}'", st)
+                        elif isinstance(ends, ast.Raise) or (isinstance(ends, ast.Assert)):
+                            verdict = ("bad", f"case is rejected by 'if {A.unparse(st.test)}'", st)
+                        else:
+                            continue
+                        break
+                elif isinstance(st, ast.Assert) and isinstance(st.test, ast.Constant) and not st.test.value:
+                    verdict = ("bad", "falls through every case to 'assert False'", st)
+                    break
+                elif isinstance(st, ast.Raise):
+                    verdict = ("bad", "falls through every case to a raise", st)
+                    break
+                elif isinstance(st, ast.Return):
+                    verdict = ("ok", "default return", st)
+                    break
+            if verdict is None:
+                verdict = ("bad", "no case returns", fn.node)
+            k, msg, node = verdict
+            where = ctx.where(fn, node)
+            if k == "ok":
+                out.append(ok("TOTAL-1", fn.qualname, key, where, msg))
+            elif k == "unresolved":
+                out.append(unresolved("TOTAL-1", fn.qualname, key, where, msg))
+            else:
+                out.append(bad("TOTAL-1", fn.qualname, key, where, f"{key}: {msg} (AssertionError instead of joining)"))
+    return out
+
+
+@rule("TOTAL-2", 4, "closing the graph changes it exactly when there are two or more exits")
+def total2(ctx) -> List[Ob]:
+    out: List[Ob] = []
+    fn = ctx.prog.cls("SCFG").find_method("join_returns")
+    if fn is None:
+        raise AnalysisError("SCFG.join_returns not found")
+    muts = [c for c in A.walk_no_nested(fn.node) if isinstance(c, ast.Call) and isinstance(c.func, ast.Attribute) and c.func.attr.startswith("insert_")]
+    if not muts:
+        raise AnalysisError("join_returns: no insertion found")
+    c = muts[0]
+    guards = [a for a in A.ancestors(c) if isinstance(a, ast.If)]
+    # the list whose length is tested
+    for n in LEN_CLASSES:
+        key = f"{n if n < 4 else '4+'} exit block(s)"
+        where = ctx.where(fn, c)
+        if not guards:
+            v: Optional[bool] = True
+        else:
+            g = guards[0]
+            names = [x.id for x in ast.walk(g.test) if isinstance(x, ast.Name) and x.id != "len"]
+            v = eval_len_test(g.test, {nm: n for nm in names})
+        want = n >= 2
+        if v is None:
+            out.append(unresolved("TOTAL-2", fn.qualname, key, where, "guard of the insertion cannot be evaluated"))
+        elif v == want:
+            out.append(ok("TOTAL-2", fn.qualname, key, where, "a common exit is inserted" if want else "no-op"))
+        else:
+            out.append(bad("TOTAL-2", fn.qualname, key, where, f"with {key} the graph is {'changed' if v else 'left with several exits'}: closing must be a no-op for at most one exit and leave exactly one exit otherwise"))
+    # the predecessors are all exit blocks and the successors empty
+    key = "common exit fed by every exit block"
+    preds = c.args[1] if len(c.args) > 1 else None
+    succ = c.args[2] if len(c.args) > 2 else None
+    cfg = ctx.cfg(fn)
+    okp = False
+    if isinstance(preds, ast.Name):
+        for d in cfg.reaching_defs(c, preds.id):
+            if d.stmt is not None and isinstance(d.stmt, ast.Assign) and isinstance(d.stmt.value, ast.ListComp):
+                lc = d.stmt.value
+                if len(lc.generators) == 1 and A.unparse(lc.generators[0].iter) in ("self.graph", "self.graph.keys()") and len(lc.generators[0].ifs) == 1 and "is_exiting" in A.unparse(lc.generators[0].ifs[0]) and A.unparse(lc.elt) == A.unparse(lc.generators[0].target):
+                    okp = True
+    oks = isinstance(succ, (ast.List, ast.Tuple)) and not succ.elts
+    if okp and oks:
+        out.append(ok("TOTAL-2", fn.qualname, key, ctx.where(fn, c), "predecessors = all blocks with is_exiting, successors = []"))
+    else:
+        out.append(bad("TOTAL-2", fn.qualname, key, ctx.where(fn, c), "the synthetic return is not inserted after exactly the blocks without successors with no successors of its own"))
+    return out
+
+
+def _is_narrowing(test: ast.AST) -> bool:
+    """assert x is not None / assert isinstance(x, C): type narrowing, not a shape condition"""
+    if isinstance(test, ast.BoolOp):
+        return all(_is_narrowing(v) for v in test.values)
+    if isinstance(test, ast.Compare) and len(test.ops) == 1 and isinstance(test.ops[0], (ast.IsNot,)) and isinstance(test.comparators[0], ast.Constant) and test.comparators[0].value is None:
+        return True
+    if isinstance(test, ast.Call) and isinstance(test.func, ast.Name) and test.func.id == "isinstance":
+        return True
+    return False
+
+
+@rule("TOTAL-3", 15, "no rejection point (assert, raise, next(iter()) without default, single-target unpack) is reachable from restructure() other than the audited ones")
+def total3(ctx) -> List[Ob]:
+    out: List[Ob] = []
+    cg = ctx.cg
+    roots = ctx.entry_points("restructure")
+    reach = cg.reachable_from(roots)
+    ctx.stats["TOTAL-3.reachable_functions"] = sorted(f.qualname for f in reach)
+    from .order import FnOrder, _analysis
+
+    oa = _analysis(ctx)
+    for fn in sorted(reach, key=lambda f: (f.module.name, f.qualname)):
+        fo = FnOrder(oa, fn)
+        for n in A.walk_no_nested(fn.node):
+            if isinstance(n, ast.Assert):
+                key = "assert " + A.alpha_key(n.test)
+                where = ctx.where(fn, n)
+                if _is_narrowing(n.test):
+                    out.append(ok("TOTAL-3", fn.qualname, key, where, "type-narrowing assertion (not a condition on the graph's shape)", nontrivial=False))
+                else:
+                    out.append(bad("TOTAL-3", fn.qualname, key, where, f"shape-dependent assertion '{A.unparse(n.test)[:60]}' reachable from restructure(): a closed CFG that violates it is rejected with AssertionError",
+                                   ["call path: " + " -> ".join(f.qualname for f in (cg.path(roots[0], fn) or []))]))
+            elif isinstance(n, ast.Raise):
+                key = "raise " + (A.alpha_key(n.exc) if n.exc is not None else "")
+                where = ctx.where(fn, n)
+                out.append(bad("TOTAL-3", fn.qualname, key, where, f"'{A.unparse(n)[:60]}' reachable from restructure()",
+                               ["call path: " + " -> ".join(f.qualname for f in (cg.path(roots[0], fn) or []))]))
+            elif isinstance(n, ast.Call) and isinstance(n.func, ast.Name) and n.func.id == "next" and len(n.args) == 1 and isinstance(n.args[0], ast.Call) and isinstance(n.args[0].func, ast.Name) and n.args[0].func.id == "iter":
+                src = n.args[0].args[0] if n.args[0].args else n
+                key = "next(iter) " + A.alpha_key(A.enclosing_stmt(n) or n)
+                where = ctx.where(fn, n)
+                if fo._singleton_guard(n, src):
+                    out.append(ok("TOTAL-3", fn.qualname, key, where, f"{A.unparse(n)} under a guard that {A.unparse(src)[:30]} is non-empty (exactly one element)"))
+                else:
+                    out.append(bad("TOTAL-3", fn.qualname, key, where, f"{A.unparse(n)[:50]} raises StopIteration when {A.unparse(src)[:30]} is empty"))
+            elif isinstance(n, ast.Assign) and any(isinstance(t, (ast.List, ast.Tuple)) and len(t.elts) == 1 for t in n.targets):
+                key = "unpack " + A.alpha_key(n)
+                out.append(bad("TOTAL-3", fn.qualname, key, ctx.where(fn, n), f"single-target unpack '{A.unparse(n)[:50]}' raises ValueError unless exactly one element"))
+    return out
+
+
+@rule("TOTAL-4", 6, "every while loop reachable from restructure() matches a termination idiom")
+def total4(ctx) -> List[Ob]:
+    out: List[Ob] = []
+    reach = ctx.cg.reachable_from(ctx.entry_points("restructure"))
+    for fn in sorted(reach, key=lambda f: (f.module.name, f.qualname)):
+        for w in A.walk_no_nested(fn.node):
+            if not isinstance(w, ast.While):
+                continue
+            key = "while " + A.alpha_key(w.test)
+            where = ctx.where(fn, w)
+            idiom = _termination_idiom(ctx, fn, w)
+            if idiom[0]:
+                out.append(ok("TOTAL-4", fn.qualname, key, where, idiom[1]))
+            else:
+                out.append(bad("TOTAL-4", fn.qualname, key, where, f"loop matches no termination idiom: {idiom[1]}"))
+    return out
+
+
+def _termination_idiom(ctx, fn, w: ast.While):
+    body_txt = A.unparse(ast.Module(w.body, []))
+    test = w.test
+    # (a) work-list with visited set
+    work = None
+    if isinstance(test, ast.Name):
+        work = test.id
+    elif isinstance(test, ast.Constant) and test.value is True:
+        # `while True: if work: x = work.pop() else: return`
+        for s in w.body:
+            if isinstance(s, ast.If) and isinstance(s.test, ast.Name) and any(isinstance(r, ast.Return) for r in s.orelse):
+                work = s.test.id
+    if work is not None:
+        pops = [c for c in A.walk_no_nested(ast.Module(w.body, [])) if isinstance(c, ast.Call) and isinstance(c.func, ast.Attribute) and c.func.attr in ("pop", "popleft") and A.unparse(c.func.value) == work]
+        grows = [c for c in A.walk_no_nested(ast.Module(w.body, [])) if isinstance(c, ast.Call) and isinstance(c.func, ast.Attribute) and c.func.attr in ("extend", "append", "update", "add", "appendleft") and A.unparse(c.func.value) == work]
+        if pops:
+            if not grows:
+                return True, f"work-list {work} only shrinks"
+            # every growth must happen after the popped item was added to a seen-collection that gates re-processing
+            cfg = ctx.cfg(fn)
+            popped = None
+            for s in A.walk_no_nested(ast.Module(w.body, [])):
+                if isinstance(s, ast.Assign) and s.value in pops and isinstance(s.targets[0], ast.Name):
+                    popped = s.targets[0].id
+                if isinstance(s, ast.Assign) and isinstance(s.targets[0], ast.Tuple) and s.value in pops:
+                    popped = A.unparse(s.targets[0].elts[0])
+            seen_adds = [c for c in A.walk_no_nested(ast.Module(w.body, [])) if isinstance(c, ast.Call) and isinstance(c.func, ast.Attribute) and c.func.attr in ("add", "append") and A.unparse(c.func.value) != work and c.args and popped is not None and A.unparse(c.args[0]) == popped]
+            gates = [s for s in A.walk_no_nested(ast.Module(w.body, [])) if isinstance(s, ast.If) and isinstance(s.test, ast.Compare) and isinstance(s.test.ops[0], (ast.In, ast.NotIn)) and popped is not None and A.unparse(s.test.left) == popped]
+            if seen_adds and gates:
+                seen_name = A.unparse(seen_adds[0].func.value)
+                if any(A.unparse(g.test.comparators[0]) == seen_name for g in gates):
+                    # each growth is dominated (within the iteration) by the seen-add or happens on the not-seen side
+                    ok_all = True
+                    for gcall in grows:
+                        gn = cfg.node_of(gcall)
+                        adds_n = [cfg.node_of(a) for a in seen_adds]
+                        wn = cfg.node_of(w)
+                        # path from loop header to the growth that avoids every seen-add
+                        if gn in cfg.reachable(wn, avoid=lambda z: z in adds_n):
+                            ok_all = False
+                    if ok_all:
+                        return True, f"visited-set work-list: {popped} is added to {seen_name} on every path that grows {work}, and seen items are skipped"
+                    return False, f"{work} can grow on a path that does not record {popped} as seen"
+            return False, f"work-list {work} grows without a visited set gating re-processing"
+    # (b) monotone fix-point flag
+    if isinstance(test, ast.Name):
+        flag = test.id
+        resets = [s for s in w.body if isinstance(s, ast.Assign) and any(isinstance(t, ast.Name) and t.id == flag for t in s.targets) and isinstance(s.value, ast.Constant) and s.value.value is False]
+        sets = [s for s in A.walk_no_nested(ast.Module(w.body, [])) if isinstance(s, ast.Assign) and any(isinstance(t, ast.Name) and t.id == flag for t in s.targets) and isinstance(s.value, ast.Constant) and s.value.value is True]
+        if resets and w.body[0] is resets[0] and sets:
+            strict = all(any(isinstance(a, ast.If) and isinstance(a.test, ast.Compare) and isinstance(a.test.ops[0], (ast.Lt, ast.Gt)) and "len(" in A.unparse(a.test) for a in A.ancestors(s)) for s in sets)
+            if strict:
+                return True, f"fix-point flag {flag}: reset at the top, set again only when a set strictly shrank"
+            return False, f"flag {flag} is set again without a strict decrease"
+    # (c) bounded comparison walk
+    if isinstance(test, ast.Compare) and len(test.ops) == 1 and isinstance(test.ops[0], (ast.Lt, ast.LtE)) and isinstance(test.left, ast.Name):
+        v = test.left.id
+        adv = [s for s in A.walk_no_nested(ast.Module(w.body, [])) if isinstance(s, (ast.Assign, ast.AugAssign)) and v in A.names_in(s.targets[0] if isinstance(s, ast.Assign) else s.target)]
+        if adv:
+            return True, f"bounded walk: {v} advances towards {A.unparse(test.comparators[0])}"
+    # vendored SCC: `while queue:` / `while scc_queue and ...` with pop on every non-growing iteration
+    return False, f"'while {A.unparse(test)[:40]}' has no recognised variant"
